@@ -24,6 +24,14 @@ Extensions (used by gen_pyfuncs_time.py / _wsize.py / _index.py; inert for the r
   (isinstance on a typed parameter, `k in TABLE`), `try: x = TABLE[k] except KeyError` on a
   total table, constant `a ** b`, module-level constants (cx.globals), bytes constants,
   non-empty list literals, `l.append(x)` / `l.extend(l2)`, len of bytes.
+Extensions of the third round (gen_pyfuncs_lazyidx.py / _wctl.py / _scaling.py; inert for the earlier drivers,
+  whose output is unchanged): `return` inside a `for` (the loop's Fixpoint then returns `state + value`),
+  `range(n)` / `range(a, b)`, slices `l[a:b]` / `l[a:]` / `l[:b]`, tuple-unpacking assignment, typed
+  dictionaries ('adict', V) with d[k] (KeyError), d[k] = v, d.get(k), d.values(), d.items(), k in d;
+  `defaultdict(int)` ('ddict'); `yield x` (appends to the list of yielded values); `with Timer(log, "..")`
+  (logging only); functions that return a value together with the final state (`with_state`);
+  `cx.checked_div` (`//` and `%` raise on a zero divisor); a later operand of a comparison chain may
+  re-use a None check already made for an earlier operand; sets of byte strings ('bset').
 Control: `for` becomes a top-level structural Fixpoint over the list, its state
   the variables assigned in the body that exist before the loop; an `if` whose
   two branches both fall through becomes a monadic join over the assigned
@@ -105,6 +113,16 @@ def coqty(t):
         return "nat"
     if k == "pystr":                     # a Python str, represented by its UTF-8 bytes
         return "bytes"
+    if k == "adict":                     # insertion-ordered dict with byte-string keys
+        return "(alist %s)" % coqty(t[1])
+    if k == "ddict":                     # defaultdict(int) with byte-string keys
+        return "(alist Z)"
+    if k == "bset":                      # a set of byte strings (membership and insertion only)
+        return "(list bytes)"
+    if k == "tyvar":                     # a type variable of the generated Section
+        return t[1]
+    if k == "cstr":                      # a Python str as a Coq string (ASCII property names)
+        return "string"
     raise Unsupported("no Coq type for %r" % (t,))
 
 
@@ -153,7 +171,8 @@ KEYWORDS = {"end", "in", "at", "as", "fix", "fun", "if", "then", "else", "let", 
             "for", "forall", "exists", "Type", "Prop", "Set", "using", "where", "struct", "cofix", "mod",
             "do", "Ok", "Err", "Some", "None", "true", "false", "tt", "fst", "snd", "negb", "bind",
             "aset", "alookup", "zsum", "gsized", "dedup_z", "bytes_eqb", "py_index", "py_setitem",
-            "need", "is_none", "zlen"}
+            "need", "is_none", "zlen", "inl", "inr", "py_range", "py_floordiv", "py_mod", "py_slice",
+            "py_slice_from", "alookup_z0", "bset_mem", "bset_add"}
 
 EXC = {"ValueError": "EValue", "IndexError": "EIndex", "TypeError": "EType", "KeyError": "EKey",
        "RuntimeError": "ERuntime", "EOFError": "EEof", "Exception": "EOther", "NotImplementedError": "ENotImpl",
@@ -166,6 +185,8 @@ CMP = {ast.Lt: "<?", ast.LtE: "<=?", ast.Gt: ">?", ast.GtE: ">=?", ast.Eq: "=?"}
 
 
 def cname(key):
+    if key == "<yield>":                        # the list of values yielded so far
+        return "yielded__"
     n = key.replace(".", "_")
     if n in KEYWORDS or n.endswith("__"):       # names ending in __ are the translator's own
         raise Unsupported("Python name %r collides with a Gallina identifier used by the translator" % key)
@@ -195,6 +216,9 @@ class Cx:
         self.final = True
         self.np = None              # np_sem.NpSem instance (NumPy-typed operands, enum tables) or None
         self.globals = {}           # module-level constant name -> (term, type)
+        self.rty = None             # return type of the function being translated (second pass)
+        self.checked_div = False    # `//`, `%`: ZeroDivisionError as Err EOther (py_floordiv / py_mod)
+        self.kwcalls = False        # let the driver's call rules see calls with keyword arguments
 
     def snapshot(self):
         return (len(self.defs), self.n_tmp, self.n_loop)
@@ -266,6 +290,8 @@ def truthy(term, ty, node, depth=0):
         return "(match %s with Some %s => %s | None => false end)" % (term, v, truthy(v, ty[1], node, depth + 1))
     if ty[0] == "rec":
         return "true"       # plain objects (no __bool__/__len__) are truthy
+    if ty[0] in ("list", "bset", "adict", "ddict"):      # containers are truthy when non-empty
+        return "(match %s with [] => false | _ :: _ => true end)" % term
     fail(node, "truth value of type %r" % (ty,))
 
 
@@ -301,6 +327,14 @@ def genexp(g, env, h, cx):
     it, ity = need(it, ity, "list", "EType", h, gen.iter)
     if ity[0] != "list":
         fail(gen.iter, "iteration over a non-list (%r)" % (ity,))
+    nts = [none_test(i) for i in gen.ifs]
+    if len(gen.ifs) == 1 and nts[0] is not None and nts[0][1] and isinstance(gen.target, ast.Name) \
+            and isinstance(nts[0][0], ast.Name) and nts[0][0].id == gen.target.id and ity[1][0] == "opt":
+        # (.. for x in xs if x is not None): the elements that are not None, x narrowed
+        n = cname(gen.target.id)
+        inner = dict(env)
+        inner[gen.target.id] = (n, ity[1][1])
+        return "(List.flat_map (fun o__ => match o__ with Some v__ => [v__] | None => [] end) %s)" % it, n, inner
     pat, binds = pattern(gen.target, ity[1], g)
     inner = dict(env)
     inner.update(binds)
@@ -323,6 +357,8 @@ def ex(e, env, h, cx):
             return ("%d" % e.value if e.value >= 0 else "(%d)" % e.value), Z
         if type(e.value) is bytes:
             return '(hex "%s"%%string)' % e.value.hex(), BYTES
+        if type(e.value) is str and getattr(cx, "str_consts", False) and e.value.isascii() and e.value.isprintable():
+            return '"%s"%%string' % e.value.replace('"', '""'), ("cstr",)
         fail(e, "constant")
     k = key_of(e)
     if k is not None and k in env:
@@ -382,6 +418,12 @@ def ex(e, env, h, cx):
         if lty == Z and rty == Z:
             if type(e.op) not in BINOP:
                 fail(e, "binary operator on Python ints")
+            if cx.checked_div and isinstance(e.op, (ast.FloorDiv, ast.Mod)):
+                if h is None:
+                    fail(e, "division (may raise) inside a short-circuit/lambda context")
+                v = cx.tmp()
+                h.pre.append((v, "%s %s %s" % ("py_floordiv" if isinstance(e.op, ast.FloorDiv) else "py_mod", lt, rt)))
+                return v, Z
             return BINOP[type(e.op)] % (lt, rt), Z
         if cx.np is not None:
             return cx.np.binop(e, lt, lty, rt, rty, h, cx)
@@ -406,11 +448,29 @@ def ex(e, env, h, cx):
             r = cx.np.compare(e, env, h, cx)
             if r is not None:
                 return r
+        if len(e.ops) == 1 and isinstance(e.ops[0], (ast.In, ast.NotIn)):
+            kt, kty = ex(e.left, env, h, cx)
+            ct, cty = ex(e.comparators[0], env, h, cx)
+            if kty != BYTES or cty[0] not in ("adict", "ddict", "bset"):
+                fail(e, "membership test of %r in %r" % (kty, cty))
+            c = "(bset_mem %s %s)" % (kt, ct) if cty[0] == "bset" else "(negb (is_none (alookup %s %s)))" % (kt, ct)
+            return ("(negb %s)" % c if isinstance(e.ops[0], ast.NotIn) else c), B
         parts = []
         left = e.left
+        mark = len(h.pre) if h is not None else 0
         lt, lty = ex(left, env, h, cx)
         for n_cmp, (op, right) in enumerate(zip(e.ops, e.comparators)):
-            rt, rty = ex(right, env, h if n_cmp == 0 else None, cx)    # a < b < c: c only if a < b
+            renv = env
+            if n_cmp > 0 and h is not None:
+                # a < b < c: c is evaluated only if a < b.  A None check hoisted for an earlier operand of
+                # this chain has already succeeded by then: its result may be re-used (bounds[0] <= i < bounds[1])
+                renv = dict(env)
+                for k_, (t_, ty_) in env.items():
+                    if ty_[0] == "opt":
+                        for v_, pre_ in h.pre[mark:]:
+                            if pre_ in ("need EType %s" % t_, "need EOther %s" % t_):
+                                renv[k_] = (v_, ty_[1])
+            rt, rty = ex(right, renv, h if n_cmp == 0 else None, cx)    # a < b < c: c only if a < b
             if isinstance(op, (ast.Eq, ast.NotEq)) and lty == BYTES and rty == BYTES:
                 c = "(bytes_eqb %s %s)" % (lt, rt)
             else:
@@ -493,7 +553,8 @@ def ex(e, env, h, cx):
         return "[" + "; ".join(coerce(p[0], p[1], ty) for p in parts) + "]", LIST(ty)
     if isinstance(e, ast.Dict) and not e.keys:
         return "[]", DICT
-    if isinstance(e, ast.ListComp):
+    if isinstance(e, ast.ListComp) or (isinstance(e, ast.GeneratorExp) and getattr(cx, "genexp_as_list", False)):
+        # (a generator expression is a list only where the driver has checked that it is consumed once)
         it, pat, inner = genexp(e, env, h, cx)
         b, bty = ex(e.elt, inner, None, cx)
         return "(List.map %s %s)" % (lam(pat, b), it), LIST(bty)
@@ -508,6 +569,25 @@ def ex(e, env, h, cx):
                 return r
         bt, bty = ex(e.value, env, h, cx)
         bt, bty = need(bt, bty, "sequence", "EType", h, e)
+        if isinstance(e.slice, ast.Slice):
+            if bty[0] != "list" or e.slice.step is not None:
+                fail(e, "slice of %r (only l[a:b], l[a:], l[:b] of lists / 1-D arrays)" % (bty,))
+            lo = as_int(e.slice.lower, env, h, cx) if e.slice.lower is not None else None
+            hi = as_int(e.slice.upper, env, h, cx) if e.slice.upper is not None else None
+            if hi is None:
+                return ("(py_slice_from %s %s)" % (bt, lo) if lo is not None else bt), bty
+            return "(py_slice %s %s %s)" % (bt, lo if lo is not None else "0", hi), bty
+        if bty[0] in ("adict", "ddict"):
+            kt, kty = ex(e.slice, env, h, cx)
+            if kty != BYTES:
+                fail(e, "dict key of type %r" % (kty,))
+            if bty[0] == "ddict":          # defaultdict(int): a missing key reads as int() = 0
+                return "(alookup_z0 %s %s)" % (kt, bt), Z
+            if h is None:
+                fail(e, "dict lookup (may raise KeyError) inside a short-circuit/lambda context")
+            v = cx.tmp()
+            h.pre.append((v, "need EKey (alookup %s %s)" % (kt, bt)))
+            return v, bty[1]
         if bty[0] == "tup":
             if not (isinstance(e.slice, ast.Constant) and type(e.slice.value) is int
                     and 0 <= e.slice.value < len(bty) - 1 and len(bty) == 3):
@@ -529,13 +609,35 @@ def ex(e, env, h, cx):
 
 def call(e, env, h, cx):
     f = e.func
-    if e.keywords:
+    if e.keywords and not cx.kwcalls:
         fail(e, "keyword arguments")
     name = f.id if isinstance(f, ast.Name) else None
     if cx.np is not None:
         r = cx.np.call(e, env, h, cx)
         if r is not None:
             return r
+    if e.keywords:
+        fail(e, "keyword arguments")
+    if name == "range" and len(e.args) in (1, 2):
+        a = "0" if len(e.args) == 1 else as_int(e.args[0], env, h, cx)
+        b = as_int(e.args[-1], env, h, cx)
+        return "(py_range %s %s)" % (a, b), LIST(Z)
+    if isinstance(f, ast.Attribute) and f.attr in ("values", "items", "get", "keys") and key_of(f.value) in env \
+            and env[key_of(f.value)][1][0] in ("adict", "ddict"):
+        d, dty = env[key_of(f.value)]
+        vty = Z if dty[0] == "ddict" else dty[1]
+        if f.attr == "values" and not e.args:
+            return "(List.map snd %s)" % d, LIST(vty)
+        if f.attr == "keys" and not e.args:
+            return "(List.map fst %s)" % d, LIST(BYTES)
+        if f.attr == "items" and not e.args:
+            return d, LIST(TUP(BYTES, vty))
+        if f.attr == "get" and len(e.args) == 1:
+            k, kty = ex(e.args[0], env, h, cx)
+            if kty != BYTES:
+                fail(e, "dict key of type %r" % (kty,))
+            return "(alookup %s %s)" % (k, d), OPT(vty)
+        fail(e, "dict method")
     if name == "int" and len(e.args) == 1:
         return as_int(e.args[0], env, h, cx), Z
     if name == "len" and len(e.args) == 1:
@@ -612,8 +714,10 @@ def call(e, env, h, cx):
         cal = cx.callees["self." + f.attr]
         recv = "self"
     if cal is not None:
-        fn, ptys, rty, self_args = cal
-        if len(e.args) != len(ptys):
+        fn, ptys, rty, self_args = cal[:4]
+        defaults = list(cal[4]) if len(cal) > 4 else []       # terms of the trailing parameters' default values
+        missing = len(ptys) - len(e.args)
+        if missing < 0 or missing > len(defaults):
             fail(e, "arity of call to %s" % fn)
         args = []
         if recv is not None:
@@ -628,6 +732,8 @@ def call(e, env, h, cx):
             if ty != pty:
                 t = coerce(t, ty, pty)
             args.append(t)
+        if missing:
+            args += defaults[len(defaults) - missing:]
         if h is None:
             fail(e, "call that may raise inside a short-circuit/lambda context")
         v = cx.tmp()
@@ -638,6 +744,20 @@ def call(e, env, h, cx):
 
 # ---------------------------------------------------------------------------
 # statements
+
+EXTRA_ASSIGNS = {}      # id(statement node) -> env keys a driver-specific statement assigns (set by the driver)
+
+
+def is_timer_with(s):
+    """`with Timer(log, "<text>"):` -- logs the elapsed time, nothing else (nptdms/utils.py)"""
+    return (isinstance(s, ast.With) and len(s.items) == 1 and s.items[0].optional_vars is None
+            and isinstance(s.items[0].context_expr, ast.Call) and isinstance(s.items[0].context_expr.func, ast.Name)
+            and s.items[0].context_expr.func.id == "Timer" and len(s.items[0].context_expr.args) == 2
+            and not s.items[0].context_expr.keywords
+            and isinstance(s.items[0].context_expr.args[0], ast.Name) and s.items[0].context_expr.args[0].id == "log"
+            and isinstance(s.items[0].context_expr.args[1], ast.Constant)
+            and isinstance(s.items[0].context_expr.args[1].value, str))
+
 
 def assigned_keys(stmts):
     """environment keys assigned anywhere inside the statements, in order of first appearance"""
@@ -670,8 +790,17 @@ def assigned_keys(stmts):
                 walk(s.body)
             elif isinstance(s, ast.Try):
                 walk(s.body)
+                for hd in s.handlers:
+                    walk(hd.body)
+            elif isinstance(s, ast.With):
+                walk(s.body)
+            elif isinstance(s, ast.Expr) and isinstance(s.value, ast.Yield):
+                add("<yield>")
+            elif isinstance(s, ast.Expr) and isinstance(s.value, ast.Call) and id(s) in EXTRA_ASSIGNS:
+                for k in EXTRA_ASSIGNS[id(s)]:
+                    add(k)
             elif isinstance(s, ast.Expr) and isinstance(s.value, ast.Call) and isinstance(s.value.func, ast.Attribute) \
-                    and s.value.func.attr in ("append", "extend"):
+                    and s.value.func.attr in ("append", "extend", "update", "sort"):
                 add(key_of(s.value.func.value))
     walk(stmts)
     return out
@@ -699,6 +828,28 @@ def terminates(stmts):
         return True
     if isinstance(last, ast.If):
         return terminates(last.body) and terminates(last.orelse)
+    if is_timer_with(last):
+        return terminates(last.body)
+    return False
+
+
+def leaves_block(stmts, in_loop=False):
+    """some statement may leave the enclosing block: a return anywhere, a break / continue that belongs to an
+    enclosing loop (not to a loop nested in these statements)"""
+    for s in stmts:
+        if isinstance(s, ast.Return):
+            return True
+        if isinstance(s, (ast.Break, ast.Continue)) and not in_loop:
+            return True
+        if isinstance(s, ast.If) and (leaves_block(s.body, in_loop) or leaves_block(s.orelse, in_loop)):
+            return True
+        if isinstance(s, (ast.For, ast.While)) and (leaves_block(s.body, True) or leaves_block(s.orelse, in_loop)):
+            return True
+        if isinstance(s, ast.With) and leaves_block(s.body, in_loop):
+            return True
+        if isinstance(s, ast.Try) and (leaves_block(s.body, in_loop) or any(leaves_block(h.body, in_loop) for h in s.handlers)
+                                       or leaves_block(s.orelse, in_loop) or leaves_block(s.finalbody, in_loop)):
+            return True
     return False
 
 
@@ -716,8 +867,9 @@ def is_skip(s):
 
 
 class Scope:
-    def __init__(self, ret, cont=None, brk=None, nojump=False):
+    def __init__(self, ret, cont=None, brk=None, nojump=False, retval=None):
         self.ret, self.cont, self.brk, self.nojump = ret, cont, brk, nojump
+        self.retval = retval        # term of a value some inner loop returned -> the term that returns it from here
 
 
 def ind(s):
@@ -760,6 +912,27 @@ def block(stmts, env, K, sc, cx):
         return if_stmt(s, rest, env, K, sc, cx)
     if isinstance(s, ast.For):
         return for_stmt(s, rest, env, K, sc, cx)
+    if is_timer_with(s):
+        return block(s.body + rest, env, K, sc, cx)
+    if isinstance(s, ast.Expr) and isinstance(s.value, ast.Yield) and s.value.value is not None and "<yield>" in env:
+        h = Hoist()
+        t, ty = ex(s.value.value, env, h, cx)
+        d, dty = env["<yield>"]
+        ety = ty if dty[1] is None else join_ty(dty[1], ty)
+        if dty[1] is not None and ety != dty[1]:
+            fail(s, "yield of %r after %r" % (ty, dty[1]))
+        env2 = dict(env)
+        env2["<yield>"] = ("yielded__", LIST(ety))
+        return wrap(h.pre, "let yielded__ := (%s ++ [%s]) in\n" % (d, coerce(t, ty, ety))) + block(rest, env2, K, sc, cx)
+    if isinstance(s, ast.Try) and getattr(cx, "try_catch", False) and not s.orelse and not s.finalbody \
+            and len(s.handlers) == 1 and isinstance(s.handlers[0].type, ast.Name) and s.handlers[0].type.id in EXC \
+            and s.handlers[0].name is None and terminates(s.body) and terminates(s.handlers[0].body) \
+            and not any(isinstance(n, (ast.Break, ast.Continue)) for st_ in s.body + s.handlers[0].body for n in ast.walk(st_)):
+        # try: <..return/raise> except E: <..return/raise>  -- E raised anywhere in the body is handled
+        if rest:
+            fail(rest[0], "statement after a try whose parts all return")
+        return "py_catch %s\n%s\n%s" % (EXC[s.handlers[0].type.id], ind("(" + block(s.body, env, K, sc, cx) + ")"),
+                                       ind("(" + block(s.handlers[0].body, env, K, sc, cx) + ")"))
     if isinstance(s, ast.Try) and cx.np is not None:
         body = cx.np.try_total(s, env, cx)        # the body when no handler can ever be entered, else fails
         return block(body + rest, env, K, sc, cx)
@@ -776,7 +949,9 @@ def assign(s, rest, env, K, sc, cx):
             fail(s, "augmented assignment operator")
         tgt = s.target
         k = key_of(tgt)
-        if k is None or k not in env:
+        if isinstance(tgt, ast.Subscript) and key_of(tgt.value) in env and env[key_of(tgt.value)][1][0] == "ddict":
+            pass                    # d[k] op= v on a defaultdict(int): handled as item assignment below
+        elif k is None or k not in env:
             fail(s, "augmented assignment target")
         a = as_int(tgt, env, h, cx)
         b = as_int(s.value, env, h, cx)
@@ -793,6 +968,15 @@ def assign(s, rest, env, K, sc, cx):
             fail(s, "item assignment target")
         d, dty = env[k]
         n = cname(k)
+        if dty[0] in ("adict", "ddict"):
+            kt, kty = ex(tgt.slice, env, h, cx)
+            if kty != BYTES:
+                fail(s, "dict key of type %r" % (kty,))
+            vty = Z if dty[0] == "ddict" else dty[1]
+            if ty != vty:
+                t = coerce_deep(t, ty, vty)
+            env2[k] = (n, dty)
+            return wrap(h.pre, "let %s := aset %s %s %s in\n" % (n, kt, t, d)) + block(rest, env2, K, sc, cx)
         if dty == DICT:
             kt, kty = ex(tgt.slice, env, h, cx)
             if kty != BYTES:
@@ -809,6 +993,13 @@ def assign(s, rest, env, K, sc, cx):
             env2[k] = (n, dty)
             return wrap(h.pre, "do %s <- py_setitem %s %s %s;\n" % (n, d, i, t)) + block(rest, env2, K, sc, cx)
         fail(s, "item assignment into %r" % (dty,))
+    if isinstance(tgt, ast.Tuple) and ty[0] == "tup" and len(tgt.elts) == len(ty) - 1 \
+            and all(key_of(x) is not None for x in tgt.elts):
+        # (a, b) = <pair>
+        for x, xty in zip(tgt.elts, ty[1:]):
+            env2[key_of(x)] = (cname(key_of(x)), xty)
+        return wrap(h.pre, "let '(%s) := %s in\n" % (", ".join(cname(key_of(x)) for x in tgt.elts), t)) \
+            + block(rest, env2, K, sc, cx)
     k = key_of(tgt)
     if k is None:
         fail(s, "assignment target")
@@ -895,6 +1086,9 @@ def if_stmt(s, rest, env, K, sc, cx):
         return wrap(h.pre, emit(block(s.body + rest, env_t, K, sc, cx), block(s.orelse, env_e, K, sc, cx)))
     if not rest:
         return wrap(h.pre, emit(block(s.body, env_t, K, sc, cx), block(s.orelse, env_e, K, sc, cx)))
+    if leaves_block(s.body) or leaves_block(s.orelse):
+        # a branch may leave the function / loop but may also fall through: what follows is emitted after each branch
+        return wrap(h.pre, emit(block(s.body + rest, env_t, K, sc, cx), block(s.orelse + rest, env_e, K, sc, cx)))
     # both branches may fall through and something follows: monadic join on the assigned variables
     keys = assigned_keys(s.body) + [k for k in assigned_keys(s.orelse) if k not in assigned_keys(s.body)]
     nt = none_test(s.test)
@@ -962,6 +1156,9 @@ def for_stmt(s, rest, env, K, sc, cx):
     pat, binds = pattern(tgt, lty[1], s)
     if idx is not None:
         binds[idx] = (cname(idx), Z)
+    has_ret = any(isinstance(n, ast.Return) for st in s.body for n in ast.walk(st))
+    if has_ret and (sc.nojump or sc.ret is None or sc.retval is None):
+        fail(s, "return inside a loop that is itself inside a joined branch / a fragment without return")
     state = [k for k in assigned_keys(s.body) if k in env and k not in binds]
     for k in assigned_keys(s.body):
         if k in binds:
@@ -987,7 +1184,12 @@ def for_stmt(s, rest, env, K, sc, cx):
         def k_dry(envl):
             leaves.append({k: envl[k][1] for k in state})
             return "DRY"
-        block(s.body, body_env(types), k_dry, Scope(None, cont=k_dry, brk=k_dry), cx)
+
+        def ret_dry(envl, value, inj=None):
+            sc.ret(envl, value)             # records the type of the returned value
+            return "DRY"
+        block(s.body, body_env(types), k_dry,
+              Scope(ret_dry if has_ret else None, cont=k_dry, brk=k_dry, retval=(lambda t: "DRY") if has_ret else None), cx)
         cx.restore(snap)
         cx.final = final_saved
         new = dict(types)
@@ -1004,12 +1206,16 @@ def for_stmt(s, rest, env, K, sc, cx):
     xs = "xs__"
     fixed_args = " ".join(cname(k) for k in fixed)
     rty = "unit" if not state else " * ".join(coqty(types[k]) for k in state)
+    if has_ret:         # the loop ends normally / by break with its state (inl) or returns a value (inr)
+        rty = "(%s) + %s" % (rty, coqty(cx.rty) if cx.rty is not None else "unit")
 
     def st_tuple(envl):
         if not state:
-            return "tt"
-        return "(" + ", ".join(coerce(envl[k][0], envl[k][1], types[k]) for k in state) + ")" \
-            if len(state) > 1 else coerce(envl[state[0]][0], envl[state[0]][1], types[state[0]])
+            t = "tt"
+        else:
+            t = "(" + ", ".join(coerce(envl[k][0], envl[k][1], types[k]) for k in state) + ")" \
+                if len(state) > 1 else coerce(envl[state[0]][0], envl[state[0]][1], types[state[0]])
+        return "(inl %s)" % t if has_ret else t
 
     def k_next(envl):
         parts = [name]
@@ -1023,7 +1229,12 @@ def for_stmt(s, rest, env, K, sc, cx):
 
     def k_brk(envl):
         return "Ok %s" % st_tuple(envl)
-    body = block(s.body, body_env(types), k_next, Scope(None, cont=k_next, brk=k_brk), cx)
+    if has_ret:
+        body_sc = Scope(lambda envl, value, inj=None: sc.ret(envl, value, inj="(inr %s)"), cont=k_next, brk=k_brk,
+                        retval=lambda t: "Ok (inr %s)" % t)
+    else:
+        body_sc = Scope(None, cont=k_next, brk=k_brk)
+    body = block(s.body, body_env(types), k_next, body_sc, cx)
     params = "".join(" (%s : %s)" % (cname(k), coqty(env[k][1])) for k in fixed)
     params += " (%s : %s)" % (xs, coqty(lty))
     if idx is not None:
@@ -1050,21 +1261,27 @@ def for_stmt(s, rest, env, K, sc, cx):
         patc = cname(state[0])
     else:
         patc = "'(" + ", ".join(cname(k) for k in state) + ")"
+    if has_ret:
+        pin = "_" if not state else (cname(state[0]) if len(state) == 1 else "(" + ", ".join(cname(k) for k in state) + ")")
+        return wrap(h.pre, "do r%d__ <- %s;\nmatch r%d__ with\n| inr v__ => %s\n| inl %s =>\n%s\nend"
+                    % (cx.n_loop, " ".join(args), cx.n_loop, sc.retval("v__"), pin, ind(block(rest, env2, K, sc, cx))))
     return wrap(h.pre, "do %s <- %s;\n" % (patc, " ".join(args))) + block(rest, env2, K, sc, cx)
 
 
 # ---------------------------------------------------------------------------
 # functions
 
-def function(cx, gen_name, stmts, params, env0, outputs, comment, cont_none=False):
+def function(cx, gen_name, stmts, params, env0, outputs, comment, cont_none=False, with_state=()):
     """Translate a statement list as a function.
     params: [(coq name, type)] ; env0: initial environment ; outputs: env keys whose final values
     are the result when the function ends without a value (bare return / end of body)."""
     cx.fname = gen_name
+    with_state = list(with_state)       # env keys whose final values are returned next to the value: (value, state)
 
     def run(final, rty):
         cx.final = final
         cx.n_tmp = 0
+        cx.rty = rty
         rets = []
 
         def out_tuple(envl):
@@ -1076,7 +1293,7 @@ def function(cx, gen_name, stmts, params, env0, outputs, comment, cont_none=Fals
                 return "(Some %s)" % t, OPT(ty)
             return t, ty
 
-        def ret(envl, value):
+        def ret(envl, value, inj=None):
             if value is None:
                 t, ty = out_tuple(envl)
                 pre = []
@@ -1086,17 +1303,22 @@ def function(cx, gen_name, stmts, params, env0, outputs, comment, cont_none=Fals
                 h = Hoist()
                 t, ty = ex(value, envl, h, cx)
                 pre = h.pre
+                if with_state:
+                    t = "(%s, (%s))" % (t, ", ".join(envl[k][0] for k in with_state)) if len(with_state) > 1 \
+                        else "(%s, %s)" % (t, envl[with_state[0]][0])
+                    ty = TUP(ty, TUP(*[envl[k][1] for k in with_state]) if len(with_state) > 1 else envl[with_state[0]][1])
             rets.append(ty)
             if rty is not None:
                 t = coerce_deep(t, ty, rty)
-            return wrap(pre, "Ok %s" % t)
+            return wrap(pre, "Ok %s" % (inj % t if inj else t))
 
         def k_end(envl):
             return ret(envl, None)
         def k_cont(envl):
             rets.append(NONE)
             return "Ok None"
-        body = block(stmts, dict(env0), k_end, Scope(ret, cont=k_cont if cont_none else None), cx)
+        body = block(stmts, dict(env0), k_end, Scope(ret, cont=k_cont if cont_none else None,
+                                                     retval=lambda t: "Ok %s" % t), cx)
         return body, rets
 
     snap = cx.snapshot()
@@ -1108,6 +1330,7 @@ def function(cx, gen_name, stmts, params, env0, outputs, comment, cont_none=Fals
     body, _ = run(True, rty)
     ps = "".join(" (%s : %s)" % (n, coqty(t)) for n, t in params)
     cx.defs.append("(* %s *)\nDefinition %s%s : res %s :=\n%s." % (comment, gen_name, ps, coqty(rty), ind(body)))
+    cx.rty = None
     return rty
 
 
